@@ -174,6 +174,25 @@ def plus_one(b, op):
     return False
 
 
+def is_occupancy(b, op):
+    """the operand is a fill level of channel state: a difference of indices, len() of channel state (not of the caller's batch), or a *len/*count field"""
+    d = b.def_event_of_operand(op)
+    pth = b.path_of_operand(op)
+    if re.search(r"(^|\.)(queue_len|len|count|occupied|used)$", pth):
+        return True
+    if d is None:
+        return bool(re.search(r"\.(0|1)$", pth))      # a component of a (len, …) tuple returned by a helper such as producer_space
+    if d.kind == "call":
+        if d.method in ("wrapping_sub", "saturating_sub", "checked_sub"):
+            return True
+        if d.method == "len" and d.args:
+            return not re.search(r"(^|\.)(items|iter|out|batch|unsent|buf|values)$", b.path_of_operand(d.args[0]))
+        return bool(re.search(r"\.(0|1)$", pth))
+    if d.kind == "assign" and d.data["r"]["k"] == "bin" and d.data["r"]["op"].startswith("Sub"):
+        return True
+    return plus_one(b, op) or bool(re.search(r"\.(0|1)$", pth))
+
+
 def clause3(P, res):
     rid = "C03-3"
     res.rule(rid, "occupancy is compared strictly against capacity: every ordering comparison between a (non-constant) occupancy expression and a capacity "
@@ -195,6 +214,8 @@ def clause3(P, res):
             occ = r["b"] if ca else r["a"]
             if b.const_of_operand(occ) is not None:
                 continue      # capacity > 0 style configuration tests
+            if not is_occupancy(b, occ):
+                continue      # e.g. a batch length compared with the capacity: not an admission test
             n += 1
             key = f"{b.id}:cmp#{k}"
             k += 1
